@@ -29,7 +29,7 @@ RULE = ('args: one case = one tuple (order, modulus, char, ext_deg, min_order, s
         'setup: one case = (m, t | default, prss mode), all m <= 8 (12), t <= 4 (7); '
         'types: one case = (m, t, sec_param K, constructor, l, f, p); '
         'protocol: one case = one complete m-party execution (m, t, q) evaluating q*q products')
-ASSUMPTIONS = ['reference arithmetic written here: trial-division primality, brute-force irreducibility (all monic '
+ASSUMPTIONS = ['reference arithmetic written here: trial-division primality (Miller-Rabin with 13 fixed bases above 10^6), brute-force irreducibility (all monic '
                'divisors up to half the degree), base-p digit expansion, a 20-line polynomial string parser',
                '"exactly the requested ... minimum order" is read as: where min_order decides the field (no modulus, '
                'no order), the smallest admissible field is returned (smallest prime p with p^d >= min_order if char '
@@ -58,13 +58,35 @@ MANIFEST = dict(
 # -- reference arithmetic --------------------------------------------------------------------
 
 def is_prime(n):
+    """Trial division below 10^6; above, Miller-Rabin with the first 13 primes as bases
+    (deterministic below 3.3 * 10^24, covers every field order constructed here)."""
     if n < 2:
         return False
-    i = 2
-    while i * i <= n:
-        if n % i == 0:
+    if n < 10**6:
+        i = 2
+        while i * i <= n:
+            if n % i == 0:
+                return False
+            i += 1
+        return True
+    if n >= 3317044064679887385961981:
+        raise AssertionError('is_prime: number beyond the deterministic range')
+    bases = (2, 3, 5, 7, 11, 13, 17, 19, 23, 29, 31, 37, 41)
+    if any(n % b == 0 for b in bases):
+        return False
+    r, s = 0, n - 1
+    while s % 2 == 0:
+        r, s = r + 1, s // 2
+    for a in bases:
+        x = pow(a, s, n)
+        if x in (1, n - 1):
+            continue
+        for _ in range(r - 1):
+            x = x * x % n
+            if x == n - 1:
+                break
+        else:
             return False
-        i += 1
     return True
 
 
@@ -244,6 +266,8 @@ def field_facts(field):
     mod = field.modulus
     if isinstance(mod, int):
         modc = mod
+    elif isinstance(mod.value, int):      # GF(2)[x]: coefficients packed as bits
+        modc = digits(mod.value, 2)
     else:
         modc = [int(c) for c in mod.value]
     return field.order, field.characteristic, field.ext_deg, modc
@@ -290,10 +314,18 @@ def check_args(part, sectypes, order, modulus, char, ext_deg, min_order, signed)
     call = f'SecFld({show(kw)}) -> {field.__name__} (order {q}, char {p}, ext_deg {d}, modulus {field.modulus})'
     bad = False
 
+    # input class: the modulus is a polynomial whose degree contradicts the degree asked for by order/ext_deg
+    asked_d = ext_deg if ext_deg is not None else (prime_power(order) or (None, None))[1] if order else None
+    conflict = modulus is not None and not isinstance(modc, int) and asked_d is not None and asked_d != d
+
     def fail(law, what):
         nonlocal bad
         bad = True
-        part.violation(f'C39:secfld:{law}:modulus={mk}', f'{call}: {what}', case)
+        if conflict:
+            part.violation('C39:secfld:modulus-degree-conflict-accepted', f'{call}: {what} (degree of the modulus '
+                           f'contradicts the requested degree {asked_d}; request not refused)', case)
+        else:
+            part.violation(f'C39:secfld:{law}:modulus={mk}', f'{call}: {what}', case)
 
     # a genuine field, consistently described
     if not (is_prime(p) and d >= 1 and q == p**d):
@@ -326,7 +358,8 @@ def check_args(part, sectypes, order, modulus, char, ext_deg, min_order, signed)
         return
     _, rp, rd, _, minimal = ref
     if minimal and (q != rp**rd):
-        fail('min_order-not-minimal', f'smallest admissible field is GF({rp}^{rd}) of order {rp**rd}')
+        fail('min_order-not-minimal:' + ('char-given' if char is not None else 'char-free'),
+             f'smallest admissible field is GF({rp}^{rd}) of order {rp**rd}')
     elif d != rd or (rp is not None and p != rp):
         fail('default-mismatch', f'documented resolution gives GF({rp or "p"}^{rd})')
 
@@ -435,9 +468,12 @@ def check_lifting(part, m, t, req):
             part.violation(f'C39:lifting:output-conversion:{cls}', what + f': _output_conversion(field({c})) = '
                            f'{out!r} of {type(out).__name__}, want {sub.__name__}({c})', case)
             break
-        a, b = sectype(c), sectype(sub(c))
-        if not (isinstance(a.share, field) and isinstance(b.share, field) and a.share == big and b.share == big):
-            part.violation(f'C39:lifting:embedding:{cls}', what + f': constant {c} is not embedded as field({c})', case)
+        shares = [sectype(c).share, sectype(sub(c)).share]
+        if isinstance(sub.modulus, int):     # prime field: integers are residues mod q
+            shares += [sectype(c + q).share, sectype(c - q).share]
+        if not all(isinstance(a, field) and a == big for a in shares):
+            part.violation(f'C39:lifting:embedding:{cls}', what + f': the constants {c}, {sub.__name__}({c}), {c + q}, '
+                           f'{c - q} are not all embedded as field({c}): {shares}', case)
             break
     # an element outside the base field has no base-field output
     x = field([0, 1]) if hasattr(field.modulus, 'degree') else None
@@ -501,7 +537,8 @@ def check_types(part, m, t, k):
         part.note('types_constructed', 1)
         for field in fields:
             part.outcomes.add((ctor, field.order > m, field.order.bit_length()))
-            part.note_max('max_parties_over_order_x1000', 1000 * m // field.order)
+            if t > 0:
+                part.note_max('max_parties_over_order_x1000', 1000 * m // field.order)
             if not (is_prime(field.order) and field.characteristic == field.order and field.ext_deg == 1):
                 part.violation(f'C39:types:{ctor}:not-a-prime-field', f'm={m} t={t} -K {k}: {ctor}({show(args)}) over '
                                f'{field.__name__}', case)
